@@ -83,6 +83,13 @@ CLAIMED.update({
    "SSA symbolic execution with symbolic scheduler + SMT, native stress replay"),
 })
 
+CLAIMED.update({
+ "C15": ("DESIGN.md 5/C15",
+   "Every paged List RPC body (electric ListModes, hail ListHails, parent ListChildren, publication ListPublications, vending ListConsumables/ListInventory, waste ListWasteRecords) executed for ONE paging step from an arbitrary position: arbitrary sorted symbolic ids (0..4, thorough 6), a token that is empty / names an arbitrary key (present or not) / is malformed, arbitrary int32 page size: contiguity, size cap, total_size, next-token-names-last-item, progress, errors for malformed tokens and negative sizes, no panic; capPageSize over the whole int range. Contiguity + progress give, by induction, every item exactly once and termination.",
+   "Trusted: symgo, protobuf model, ordinal ids, the page-token codec (proto.Marshal+base64) modelled as an inverse pair on a tagged ordinal, sort.Search/sort.Slice interpreted/modelled, z3. Bound: n<=4 (6) items.",
+   "SSA symbolic execution + SMT, inductive single step, native replay"),
+})
+
 NOT_YET = {}
 
 NA = {
